@@ -18,6 +18,8 @@
      gcm  e <key> <iv12> <aad> <pt> <taglen> <splits> <al> <ip>          -> <ct> <tag>
      gcm  d <key> <iv12> <aad> <ct> <tag> <splits> <al> <ip>             -> ok <pt> | authfail | rc=<n>   (psAesDecryptGCM, tag appended)
      gcm  d2 <key> <iv12> <aad> <ct> <tag> <splits> <al> <ip>            -> ok <pt> | authfail            (psAesDecryptGCM2)
+     gcmr <key> <iv1> <pt1> <taglen1> <iv2> <aad2> <pt2>                 -> <ct2> <tag2>   one context, second message after a (possibly truncated) first tag
+     gcmz <key> <iv12> <total> <chunk>                                   -> <tag16>   <total> zero ciphertext bytes, no AAD, through psAesDecryptGCMtagless in <chunk>-byte calls
      chp  e <key32> <nonce12> <aad> <pt> <al> <ip>                       -> <ct||tag>
      chp  d <key32> <nonce12> <aad> <ct||tag> <al> <ip>                  -> ok <pt> | authfail | rc=<n>
 
@@ -209,6 +211,40 @@ static void do_case(void)
             else if (rc < 0) printf("rc=%d\n", -rc);
             else { printf("ok "); puthex(out, dl); printf("\n"); }
         }
+    } else if (!strcmp(op, "gcmr") && g_ntok == 8) {
+        unsigned char *key, *iv1, *p1, *iv2, *aad2, *p2;
+        size_t kl = unhex(g_tok[1], &key), i1 = unhex(g_tok[2], &iv1), l1 = unhex(g_tok[3], &p1);
+        int tl1 = atoi(g_tok[4]);
+        size_t i2 = unhex(g_tok[5], &iv2), al2 = unhex(g_tok[6], &aad2), l2 = unhex(g_tok[7], &p2);
+        if (i1 != 12 || i2 != 12 || tl1 < 0 || tl1 > 16) { printf("BADCASE\n"); return; }
+        psAesGcm_t c; unsigned char tag[16];
+        unsigned char *o1 = malloc(l1 + 16), *o2 = malloc(l2 + 16);
+        int32_t rc = psAesInitGCM(&c, key, (uint8_t) kl);
+        if (rc < 0) { printf("rc=%d\n", -rc); return; }
+        psAesReadyGCM(&c, iv1, NULL, 0);
+        psAesEncryptGCM(&c, p1, o1, (uint32_t) l1);
+        psAesGetGCMTag(&c, (uint8_t) tl1, tag);
+        psAesReadyGCM(&c, iv2, aad2, (psSize_t) al2);
+        psAesEncryptGCM(&c, p2, o2, (uint32_t) l2);
+        psAesGetGCMTag(&c, 16, tag);
+        puthex(o2, l2); printf(" "); puthex(tag, 16); printf("\n");
+    } else if (!strcmp(op, "gcmz") && g_ntok == 5) {
+        unsigned char *key, *iv; size_t kl = unhex(g_tok[1], &key), il = unhex(g_tok[2], &iv);
+        size_t total = (size_t) strtoull(g_tok[3], NULL, 10), chunk = (size_t) strtoull(g_tok[4], NULL, 10);
+        if (il != 12 || chunk == 0 || chunk > 0xFFFFFFFFUL) { printf("BADCASE\n"); return; }
+        unsigned char *z = calloc(1, chunk), *o = malloc(chunk), tag[16];
+        psAesGcm_t c;
+        if (!z || !o) { printf("NOMEM\n"); return; }
+        alarm(600);
+        int32_t rc = psAesInitGCM(&c, key, (uint8_t) kl);
+        if (rc < 0) { printf("rc=%d\n", -rc); return; }
+        psAesReadyGCM(&c, iv, NULL, 0);
+        for (size_t done = 0; done < total; done += chunk) {
+            size_t n = total - done < chunk ? total - done : chunk;
+            psAesDecryptGCMtagless(&c, z, o, (uint32_t) n);
+        }
+        psAesGetGCMTag(&c, 16, tag);
+        puthex(tag, 16); printf("\n");
     } else if (!strcmp(op, "chp") && g_ntok == 8) {
         int enc = g_tok[1][0] == 'e';
         unsigned char *key, *nonce, *aad0, *d0; size_t kl = unhex(g_tok[2], &key), nl = unhex(g_tok[3], &nonce), al_ = unhex(g_tok[4], &aad0), dl = unhex(g_tok[5], &d0);
